@@ -168,12 +168,7 @@ def lb_ok(s):
     return both(s.offset_rows >= 0, 0 <= inum, inum < iden)
 
 
-@contract(LBX + "ListBox.update_pref_col_from_focus", property=(), assumed=True,
-          notes="remembers the focus widget's preferred column (get_pref_col / get_cursor_coords of the focus widget) in self.pref_col; moves no focus")
-class lb_update_pref_col:
-    self_shape = LISTBOX
-    params = dict(size=Tup(Int, Int))
-    modifies = ("pref_col",)
+# ListBox.update_pref_col_from_focus: verified contract in contracts/C07_keys.py (it was an assumed contract here).
 
 
 def _shift_stored(old, s, a, tgt_rows):
